@@ -109,10 +109,11 @@ def WPc.late : WPc → Bool
   | .drain | .exited => true
   | .run _ _ _ dr => dr
   | .mark _ dr => dr
+  | .signal dr => dr
   | _ => false
 
 def DPc.early : DPc → Bool
-  | .size | .waitZero | .close => false
+  | .chk | .cond2 | .close => false
   | _ => true
 
 structure MonRel (p : Params) (s : St) (m : Mon) : Prop where
@@ -401,9 +402,8 @@ variable (m : Mon) (t : Nat) (x : MT) (p : Params) (e : Ev) (s : St)
 @[simp] theorem emit_tasks : (emit p e s).tasks = s.tasks := rfl
 @[simp] theorem emit_disp : (emit p e s).disp = s.disp := rfl
 @[simp] theorem emit_workers : (emit p e s).workers = s.workers := rfl
-@[simp] theorem emit_inWindow : (emit p e s).inWindow = s.inWindow := rfl
-@[simp] theorem emit_raced : (emit p e s).raced = s.raced := rfl
-@[simp] theorem emit_lost : (emit p e s).lost = s.lost := rfl
+@[simp] theorem emit_due : (emit p e s).due = s.due := rfl
+@[simp] theorem emit_sent : (emit p e s).sent = s.sent := rfl
 @[simp] theorem emit_broken : (emit p e s).broken = s.broken := rfl
 @[simp] theorem emit_starts : (emit p e s).starts = s.starts := rfl
 @[simp] theorem emit_sdcalls : (emit p e s).sdcalls = s.sdcalls := rfl
@@ -430,7 +430,6 @@ theorem pres_submitStep {p : Params} {s : St} {t : Nat} {r : St × Bool} (h : SI
     | true => simp at hr
     | false =>
       simp only [Bool.false_eq_true, if_false] at hr
-      have hR := fun m (hm : s.mon = some m) (R : MonRel p s m) => R
       cases ph
       case fresh =>
         by_cases hw : s.writer = true
@@ -438,9 +437,17 @@ theorem pres_submitStep {p : Params} {s : St} {t : Nat} {r : St × Bool} (h : SI
         · by_cases hrun : s.running = true
           · simp [hw, hrun] at hr; subst hr
             rw [setPhase_eq ht]
-            refine ⟨sinv_task_update (y := ⟨.window, false, kids⟩) h ht rfl rfl rfl rfl rfl rfl rfl (by simp [fPend, Phase.pending]) (by simp [fCanc, Phase.canc]) ?_, rfl, rfl⟩
+            refine ⟨sinv_task_update (y := ⟨.counted, false, kids⟩) h ht rfl rfl rfl rfl rfl rfl rfl (by simp [fPend, Phase.pending, emit]) (by simp [fCanc, Phase.canc]) ?_, rfl, rfl⟩
             intro m hm R
-            exact ⟨m, hm, monUpd_same ⟨.window, false, kids⟩ R.tasks ht rfl rfl rfl rfl rfl rfl _ R.ctr⟩
+            have hlen : m.tasks.length = s.tasks.length := by rw [R.tasks]; simp
+            have hcond : m.ups + m.rejs < m.tasks.length := by
+              rw [R.ups, R.rejs, hlen]
+              exact countP_add_lt_of_get fUp fRej s.tasks t _ ht
+                (by intro a; cases a with | mk ph r k => cases ph <;> simp [fUp, fRej, Phase.upd, Phase.isRej]) rfl rfl
+            refine ⟨_, by simp [emit, hm, monStep, hcond, R.ctr]; rfl, ?_⟩
+            refine ⟨?_, rfl, by simp [fUp, Phase.upd], by simp [fDn, Phase.dnd],
+              by simp [fRej, Phase.isRej], by simp [fRs, Phase.started], by simp [fRe, Phase.ended], rfl, rfl, rfl⟩
+            exact (set_same _ _ _ (by rw [R.tasks]; simp [ht]; rfl)).symm
           · simp [hw, hrun] at hr; subst hr
             rw [setPhase_eq ht]
             refine ⟨sinv_task_update (y := ⟨.rejected, false, kids⟩) h ht rfl rfl rfl rfl rfl rfl rfl (by simp [fPend, Phase.pending]) (by simp [fCanc, Phase.canc]) ?_, rfl, rfl⟩
@@ -456,20 +463,6 @@ theorem pres_submitStep {p : Params} {s : St} {t : Nat} {r : St × Bool} (h : SI
         refine ⟨_, by simp [emit, hm, monStep, hlt, hg, absT, Phase.started]; rfl, ?_⟩
         exact ⟨by simp [setT, hg, absT, Phase.isRej, Phase.started, Phase.ended], R.ctr, by simp [fUp, Phase.upd], by simp [fDn, Phase.dnd],
           by simp [fRej, Phase.isRej], by simp [fRs, Phase.started], by simp [fRe, Phase.ended], rfl, rfl, rfl⟩
-      case window =>
-        simp at hr; subst hr
-        rw [setPhase_eq ht]
-        refine ⟨sinv_task_update (y := ⟨.counted, false, kids⟩) h ht rfl rfl rfl rfl rfl rfl rfl (by simp [fPend, Phase.pending, emit]) (by simp [fCanc, Phase.canc]) ?_, rfl, rfl⟩
-        intro m hm R
-        have hlen : m.tasks.length = s.tasks.length := by rw [R.tasks]; simp
-        have hcond : m.ups + m.rejs < m.tasks.length := by
-          rw [R.ups, R.rejs, hlen]
-          exact countP_add_lt_of_get fUp fRej s.tasks t _ ht
-            (by intro a; cases a with | mk ph r k => cases ph <;> simp [fUp, fRej, Phase.upd, Phase.isRej]) rfl rfl
-        refine ⟨_, by simp [emit, hm, monStep, hcond, R.ctr]; rfl, ?_⟩
-        refine ⟨?_, rfl, by simp [fUp, Phase.upd], by simp [fDn, Phase.dnd],
-          by simp [fRej, Phase.isRej], by simp [fRs, Phase.started], by simp [fRe, Phase.ended], rfl, rfl, rfl⟩
-        exact (set_same _ _ _ (by rw [R.tasks]; simp [ht]; rfl)).symm
       case counted =>
         by_cases hsh : s.stackHeld = true
         · simp [hsh] at hr
@@ -488,8 +481,6 @@ theorem pres_submitStep {p : Params} {s : St} {t : Nat} {r : St × Bool} (h : SI
         refine ⟨_, by simp [emit, hm, monStep, hlt, hg, absT]; rfl, ?_⟩
         exact ⟨by simp [setT, hg, absT, Phase.isRej, Phase.started, Phase.ended], R.ctr, by simp [fUp, Phase.upd], by simp [fDn, Phase.dnd],
           by simp [fRej, Phase.isRej], by simp [fRs, Phase.started], by simp [fRe, Phase.ended], rfl, rfl, rfl⟩
-
-
 
 theorem Pres.trans {p : Params} {s s1 s2 : St} (a : Pres p s s1) (b : Pres p s1 s2) : Pres p s s2 :=
   ⟨b.inv, b.openEq.trans a.openEq, Nat.le_trans a.sdmono b.sdmono⟩
@@ -583,14 +574,12 @@ theorem pres_dispStep {p : Params} {s s' : St} (h : SInv p s) (hs : s' ∈ dispS
       rintro h0 ⟨a, b, e, f⟩
       have hr : s.running = true := f (by simp [hd])
       exact ⟨a, b, by simp [hr, DPc.early], fun _ => hr⟩
-  | size =>
+  | chk =>
     simp only [hd] at hs
-    by_cases hw : s.stackHeld = true
-    · simp [hw] at hs
-    · simp [hw] at hs; subst hs
-      refine ⟨pres_fields' h rfl rfl rfl rfl rfl ?_, rfl⟩
-      rintro h0 ⟨a, b, e, f⟩
-      simp [hd, DPc.early] at e
+    simp at hs; subst hs
+    refine ⟨pres_fields' h rfl rfl rfl rfl rfl ?_, rfl⟩
+    rintro h0 ⟨a, b, e, f⟩
+    simp [hd, DPc.early] at e
   | pop =>
     simp only [hd] at hs
     by_cases hw : s.stackHeld = true
@@ -606,15 +595,22 @@ theorem pres_dispStep {p : Params} {s s' : St} (h : SInv p s) (hs : s' ∈ dispS
     simp only [hd] at hs
     by_cases hw : s.writer = true
     · simp [hw] at hs
-    · by_cases hr : s.running = true
-      · simp [hw, hr] at hs; subst hs
-        refine ⟨pres_fields' h rfl rfl rfl rfl rfl ?_, rfl⟩
-        rintro h0 ⟨a, b, e, f⟩
-        exact ⟨a, b, rfl, fun _ => rfl⟩
-      · simp [hw, hr] at hs; subst hs
-        refine ⟨pres_fields' h rfl rfl rfl rfl rfl ?_, rfl⟩
-        rintro h0 ⟨a, b, e, f⟩
-        exact absurd (f (by simp [hd])) hr
+    · simp [hw] at hs; subst hs
+      refine ⟨pres_fields' h rfl rfl rfl rfl rfl ?_, rfl⟩
+      rintro h0 ⟨a, b, e, f⟩
+      have hr : s.running = true := f (by simp [hd])
+      exact ⟨a, b, by simp [hr, DPc.early], fun _ => hr⟩
+  | cond2 =>
+    simp only [hd] at hs
+    have hne : ∀ x, x ∈ (if 0 < s.pending then [{ s with disp := DPc.gap }]
+        else [{ s with stackHeld := false, disp := DPc.loop }]) → Pres p s x ∧ x.workers = s.workers := by
+      intro x hx
+      split at hx <;> (simp at hx; subst hx)
+      · refine ⟨pres_fields' h rfl rfl rfl rfl rfl ?_, rfl⟩
+        rintro h0 ⟨a, b, e, f⟩; simp [hd, DPc.early] at e
+      · refine ⟨pres_fields' h rfl rfl rfl rfl rfl ?_, rfl⟩
+        rintro h0 ⟨a, b, e, f⟩; simp [hd, DPc.early] at e
+    exact hne _ hs
   | gap =>
     simp only [hd] at hs
     simp at hs; subst hs
@@ -650,22 +646,12 @@ theorem pres_dispStep {p : Params} {s s' : St} (h : SInv p s) (hs : s' ∈ dispS
         have := f (by rw [setPhase_eq ht]; simp [hd])
         simpa [setPhase_eq ht] using this
     · simp [hc] at hs
-  | waitZero =>
-    simp only [hd] at hs
-    by_cases hz : s.pending = 0
-    · simp [hz] at hs; subst hs
-      refine ⟨pres_fields' h rfl rfl (by simp [hz]) rfl rfl ?_, rfl⟩
-      rintro h0 ⟨a, b, e, f⟩
-      simp [hd, DPc.early] at e
-    · simp [hz] at hs
   | close =>
     simp only [hd] at hs
     simp at hs; subst hs
     refine ⟨pres_fields' h rfl rfl rfl rfl rfl ?_, rfl⟩
     rintro h0 ⟨a, b, e, f⟩
     simp [hd, DPc.early] at e
-
-
 
 theorem countP_lin {α : Type} (l : List α) (f1 f2 f3 g1 g2 : α → Bool)
     (h : ∀ a, b2n (f1 a) + b2n (f2 a) + b2n (f3 a) ≤ b2n (g1 a) + b2n (g2 a)) :
@@ -773,7 +759,8 @@ theorem pres_re {p : Params} {s : St} {t : Nat} {r : Bool} {k : List Body} (h : 
 
 theorem pres_dn_run {p : Params} {s : St} {t : Nat} {r : Bool} {k : List Body} (h : SInv p s)
     (ht : s.tasks[t]? = some ⟨.ran, r, k⟩) (hc : ∀ m, s.mon = some m → m.completed = false) :
-    Pres p s (emit p (.dn (s.pending - 1)) { setPhase s t .done with pending := s.pending - 1 }) := by
+    ∀ d : Nat, Pres p s (emit p (.dn (s.pending - 1)) { setPhase s t .done with pending := s.pending - 1, due := d }) := by
+  intro d
   have hpos : 0 < s.pending := by
     rw [h.cons]; exact countP_pos_of_get fPend s.tasks t _ ht rfl
   have hran : 0 < cnt fRan s := countP_pos_of_get fRan s.tasks t _ ht rfl
@@ -805,7 +792,8 @@ theorem pres_dn_run {p : Params} {s : St} {t : Nat} {r : Bool} {k : List Body} (
 
 theorem pres_dn_cancel {p : Params} {s : St} {t : Nat} {r : Bool} {k : List Body} (h : SInv p s)
     (ht : s.tasks[t]? = some ⟨.cancelling, r, k⟩) (hc : ∀ m, s.mon = some m → m.completed = false) :
-    Pres p s (emit p (.dn (s.pending - 1)) { setPhase s t .cancelled with pending := s.pending - 1 }) := by
+    ∀ d : Nat, Pres p s (emit p (.dn (s.pending - 1)) { setPhase s t .cancelled with pending := s.pending - 1, due := d }) := by
+  intro d
   have hpos : 0 < s.pending := by
     rw [h.cons]; exact countP_pos_of_get fPend s.tasks t _ ht rfl
   have hcing : 0 < cnt fCing s := countP_pos_of_get fCing s.tasks t _ ht rfl
@@ -930,18 +918,41 @@ theorem pres_wStep {p : Params} {s : St} {w : WPc} {r : St × WPc} (h : SInv p s
       cases ph <;> simp at hr
       case ran =>
         subst hr
-        refine ⟨pres_dn_run h ht (fun m hm => h.not_completed hm hw rfl), by rw [setPhase_eq ht]; rfl, rfl, fun hl => ?_⟩
-        rw [setPhase_eq ht]
-        cases dr with
-        | true => exact hsd rfl
-        | false => simp [WPc.late] at hl
+        have hsame : (markDone p s t .done dr).1.workers = s.workers ∧ (markDone p s t .done dr).1.sdcalls = s.sdcalls := by
+          unfold markDone; split <;> (rw [setPhase_eq ht]; exact ⟨rfl, rfl⟩)
+        have hlate : (markDone p s t .done dr).2.late = true → dr = true := by
+          unfold markDone; split <;> cases dr <;> simp [WPc.late]
+        refine ⟨?_, hsame.1, rfl, fun hl => by rw [hsame.2]; exact hsd (hlate hl)⟩
+        unfold markDone
+        by_cases hp : s.pending = 1
+        · rw [if_pos hp]
+          have := pres_dn_run h ht (fun m hm => h.not_completed hm hw rfl) (s.due + 1)
+          simpa [hp] using this
+        · rw [if_neg hp]
+          exact pres_dn_run h ht (fun m hm => h.not_completed hm hw rfl) (setPhase s t .done).due
       case cancelling =>
         subst hr
         have hcanc : 0 < cnt fCanc s := countP_pos_of_get fCanc s.tasks t _ ht rfl
-        refine ⟨pres_dn_cancel h ht (fun m hm => h.not_completed hm hw rfl), by rw [setPhase_eq ht]; rfl, rfl, fun _ => ?_⟩
-        rw [setPhase_eq ht]; exact (h.sd_of_canc hcanc).1
-
-
+        have hsame : (markDone p s t .cancelled true).1.workers = s.workers ∧ (markDone p s t .cancelled true).1.sdcalls = s.sdcalls := by
+          unfold markDone; split <;> (rw [setPhase_eq ht]; exact ⟨rfl, rfl⟩)
+        refine ⟨?_, hsame.1, rfl, fun _ => by rw [hsame.2]; exact (h.sd_of_canc hcanc).1⟩
+        unfold markDone
+        by_cases hp : s.pending = 1
+        · rw [if_pos hp]
+          have := pres_dn_cancel h ht (fun m hm => h.not_completed hm hw rfl) (s.due + 1)
+          simpa [hp] using this
+        · rw [if_neg hp]
+          exact pres_dn_cancel h ht (fun m hm => h.not_completed hm hw rfl) (setPhase s t .cancelled).due
+  | signal dr =>
+    have hsd : dr = true → 0 < s.sdcalls := fun hd => h.sd_of_late hw (by simp [WPc.late, hd])
+    simp only [wStep] at hr
+    by_cases hsh : s.stackHeld = true
+    · simp [hsh] at hr
+    · simp [hsh] at hr; subst hr
+      refine ⟨pres_fields' h rfl rfl rfl rfl rfl (fun _ x => x), rfl, rfl, fun hl => ?_⟩
+      cases dr with
+      | true => exact hsd rfl
+      | false => simp [WPc.late] at hl
 
 theorem pres_runnerStep {p : Params} {s s' : St} (h : SInv p s) (hs : s' ∈ runnerStep p s) : Pres p s s' := by
   unfold runnerStep at hs
@@ -957,11 +968,11 @@ theorem pres_runnerStep {p : Params} {s s' : St} (h : SInv p s) (hs : s' ∈ run
       exact pres_set_worker a b hw c d
 
 def CPc.inStart : CPc → Bool
-  | .st0 | .stWait1 | .stLock | .stWait2 | .stUnlock => true
+  | .stTry | .stWait => true
   | _ => false
 
 def CPc.inSd : CPc → Bool
-  | .sd1 | .sdSend _ | .sdBcast | .sdUnlock => true
+  | .sd1 | .sdSend _ | .sdUnlockS | .sdUnlockN | .sdBcast => true
   | _ => false
 
 /-- The steps of a client thread. -/
@@ -1030,11 +1041,11 @@ theorem pres_clientStep {p : Params} {s : St} {c : Client} {r : St × Client} (h
       · simp [hj, hsg] at hr
     · simp [hj] at hr; subst hr
       exact fin (pres_refl h) rfl (fun _ => rfl)
-  case sdBcast =>
+  case sdUnlockS =>
     simp only [clientStep] at hr
     simp at hr; subst hr
     exact fin (pres_fields' h rfl rfl rfl rfl rfl (fun _ x => x)) rfl (fun _ => rfl)
-  case sdUnlock =>
+  case sdUnlockN =>
     simp only [clientStep] at hr
     simp at hr; subst hr
     have I : SInv p (emit p .sdret { s with writer := false }) := by
@@ -1043,43 +1054,46 @@ theorem pres_clientStep {p : Params} {s : St} {c : Client} {r : St × Client} (h
       exact ⟨by simp [emit, hm, monStep], rfl, rfl, rfl, rfl, rfl, rfl, rfl, R.sdcalls, fun x => Or.inl x, R.openc⟩
     refine ⟨I, by simp, ?_, by simp [CPc.inSd]⟩
     simp [openOf, emit, hm, monStep, CPc.inStart]
-  case st0 =>
+  case sdBcast =>
     simp only [clientStep] at hr
-    by_cases ho : p.oldStart = true
-    · simp [ho] at hr; subst hr; exact fin (pres_refl h) rfl (by simp [CPc.inSd])
-    · by_cases hw : s.writer = true
-      · simp [ho, hw] at hr
-      · simp [ho, hw] at hr; subst hr
-        refine fin (pres_refl h) ?_ ?_ <;> cases s.running <;> simp [CPc.inSd, CPc.inStart]
-  case stWait1 =>
+    by_cases hsh : s.stackHeld = true
+    · simp [hsh] at hr
+    · rw [if_neg hsh] at hr; simp at hr; subst hr
+      have I : SInv p (emit p .sdret { s with dwait := false, due := s.due - 1 }) := by
+        refine sinv_mon_only (m' := m) h rfl rfl (Nat.le_refl _) rfl rfl rfl rfl rfl ?_
+        intro m0 hm0; rw [hm] at hm0; cases hm0
+        exact ⟨by simp [emit, hm, monStep], rfl, rfl, rfl, rfl, rfl, rfl, rfl, R.sdcalls, fun x => Or.inl x, R.openc⟩
+      refine ⟨I, by simp, ?_, by simp [CPc.inSd]⟩
+      simp [openOf, emit, hm, monStep, CPc.inStart]
+  case stTry =>
+    have ho : 0 < m.openStarts := by rw [← hopen]; exact hst rfl
+    simp only [clientStep] at hr
+    by_cases hw : s.writer = true
+    · simp [hw] at hr
+    · have retI : ∀ s1 : St, SInv p s1 → s1.mon = s.mon → SInv p (emit p .startret s1) := by
+        intro s1 h1 hm1
+        obtain ⟨m1, hm1', R1⟩ := h1.mon
+        have : m1 = m := by rw [hm1, hm] at hm1'; exact (Option.some.inj hm1').symm
+        subst this
+        refine sinv_mon_only (m' := { m1 with openStarts := m1.openStarts - 1 }) h1 rfl rfl (Nat.le_refl _) rfl rfl rfl rfl rfl ?_
+        intro m0 hm0; rw [hm1'] at hm0; cases hm0
+        exact ⟨by simp [emit, hm1', monStep], rfl, rfl, rfl, rfl, rfl, rfl, rfl, R1.sdcalls, fun x => Or.inl x, fun _ => R1.openc ho⟩
+      by_cases hrun : s.running = true
+      · simp [hw, hrun] at hr; subst hr
+        refine ⟨retI s h rfl, by simp, ?_, by simp [CPc.inSd]⟩
+        simp [openOf, emit, hm, monStep, CPc.inStart, b2n]; omega
+      · by_cases hz : wg s = 0
+        · simp [hw, hrun, hz] at hr; subst hr
+          have hS := sinv_spawn h (hst rfl)
+          refine ⟨retI (spawn p s) hS rfl, by simp [spawn], ?_, by simp [CPc.inSd]⟩
+          simp [openOf, emit, spawn, hm, monStep, CPc.inStart, b2n]; omega
+        · simp [hw, hrun, hz] at hr; subst hr
+          exact fin (pres_refl h) rfl (by simp [CPc.inSd])
+  case stWait =>
     simp only [clientStep] at hr
     by_cases hz : wg s = 0
     · simp [hz] at hr; subst hr; exact fin (pres_refl h) rfl (by simp [CPc.inSd])
     · simp [hz] at hr
-  case stLock =>
-    simp only [clientStep] at hr
-    by_cases hw : s.writer = true
-    · simp [hw] at hr
-    · simp [hw] at hr; subst hr
-      refine fin (pres_fields' h rfl rfl rfl rfl rfl (fun _ x => x)) ?_ ?_ <;> cases s.running <;> simp [CPc.inSd, CPc.inStart]
-  case stWait2 =>
-    simp only [clientStep] at hr
-    by_cases hz : wg s = 0
-    · simp [hz] at hr; subst hr
-      have ho := hst rfl
-      refine ⟨sinv_spawn h ho, Nat.le_refl _, ?_, by simp [CPc.inSd]⟩
-      simp [openOf, spawn, CPc.inStart]
-    · simp [hz] at hr
-  case stUnlock =>
-    simp only [clientStep] at hr
-    simp at hr; subst hr
-    have ho : 0 < m.openStarts := by rw [← hopen]; exact hst rfl
-    have I : SInv p (emit p .startret { s with writer := false }) := by
-      refine sinv_mon_only (m' := { m with openStarts := m.openStarts - 1 }) h rfl rfl (Nat.le_refl _) rfl rfl rfl rfl rfl ?_
-      intro m0 hm0; rw [hm] at hm0; cases hm0
-      exact ⟨by simp [emit, hm, monStep], rfl, rfl, rfl, rfl, rfl, rfl, rfl, R.sdcalls, fun x => Or.inl x, fun _ => R.openc ho⟩
-    refine ⟨I, by simp, ?_, by simp [CPc.inSd]⟩
-    simp [openOf, emit, hm, monStep, CPc.inStart, b2n]; omega
   case wc =>
     simp only [clientStep] at hr
     by_cases hz : wg s = 0
@@ -1109,8 +1123,6 @@ theorem pres_clientStep {p : Params} {s : St} {c : Client} {r : St × Client} (h
     by_cases hz : s.pending = 0
     · simp [hz] at hr; subst hr; exact fin (pres_fields' h rfl rfl (by simp [hz]) rfl rfl (fun _ x => x)) rfl (by simp [CPc.inSd])
     · simp [hz] at hr
-
-
 
 def Thr.inStart : Thr → Bool
   | .client c => c.pc.inStart
